@@ -198,8 +198,12 @@ func refOrdered(op string, v, c datamodel.Node) tri {
 	case v.Kind() == datamodel.Kind_Float && c.Kind() == datamodel.Kind_Float:
 		x, _ := v.AsFloat()
 		y, _ := c.AsFloat()
-		if math.IsNaN(x) || math.IsNaN(y) || math.IsInf(x, 0) || math.IsInf(y, 0) {
-			return triDC
+		if math.IsNaN(x) || math.IsNaN(y) {
+			// not a number: under the classical reading no ordering statement about it is true
+			return triFalse
+		}
+		if math.IsInf(x, 0) || math.IsInf(y, 0) {
+			return triDC // infinities are not numbers of the IPLD data model; the implementation documents "false", the property does not fix it
 		}
 		switch {
 		case x < y:
@@ -466,7 +470,7 @@ func c11AtomSub() *engine.Sub {
 	return &engine.Sub{
 		Name: "atoms-truth",
 		Repeat: true,
-		Rule: "every comparison atom (5 operators x 6 selectors x 9 literals) and like atom (6 selectors x 6 patterns) as a top-level statement, on every datum {a in 21 values, b in 3, l in 2}: if the selector resolves, Match = PartialMatch = classical truth (same-kind numbers only; NaN/Inf ordering and == on NaN are don't-care); if required data is missing Match=false and PartialMatch=true; if optional data is missing both are true; non-trivial = selector resolves",
+		Rule: "every comparison atom (5 operators x 6 selectors x 9 literals) and like atom (6 selectors x 6 patterns) as a top-level statement, on every datum {a in 21 values, b in 3, l in 2}: if the selector resolves, Match = PartialMatch = classical truth (same-kind numbers only; an ordering statement with a NaN operand is false; infinite operands of ordering operators and == on NaN are don't-care); if required data is missing Match=false and PartialMatch=true; if optional data is missing both are true; non-trivial = selector resolves",
 		Bound: func(string) string { return fmt.Sprintf("306 atoms x %d data", len(data)) },
 		Gen: func(tier string, emit func(any) bool) {
 			for _, a := range c11Atoms() {
@@ -921,7 +925,7 @@ func C11() *engine.Check {
 		Subs:     []*engine.Sub{c11AtomSub(), c11StructSub(), c11ConcatSub()},
 		Assumptions: []string{
 			"'every selector resolves' is decided with the real selector.Select per statement (per element under quantifiers); selector semantics are C12's business",
-			"don't-care: NaN/Inf operands of ordering operators, == on NaN, the empty or, quantifiers over non-lists",
+			"don't-care: infinite operands of ordering operators, == on NaN, the empty or, quantifiers over non-lists",
 			"classical semantics: == is IPLD deep equality (kinds must agree), orderings compare ints with ints and floats with floats only, like = glob language (refmodel.GlobMatch)",
 		},
 	}
